@@ -151,6 +151,15 @@ pub struct Sim {
     /// ticks advanced since the server (re)started; the harness keys its records by tick value, so one run never
     /// covers a full 2^32 cycle
     pub advanced: u64,
+    /// monotone step clock of the harness
+    pub clock: u64,
+    /// clock value of the last moment at which nothing was in flight or buffered anywhere (see `note_sync`)
+    pub last_sync: u64,
+    /// per client: true when it has run a frame since the last replication message was queued for it
+    pub settled: Vec<bool>,
+    /// per slot: clock value at which a reference to it was last REPLACED by a reference to something else (the old
+    /// value then only lives in mutate messages, which may still be in flight: finding F23)
+    pub ref_replaced_at: Vec<Option<u64>>,
 }
 
 /// 8 secret bytes derived from the write id (high bit set in every byte), followed by padding.
@@ -243,6 +252,10 @@ impl Sim {
             need_first_tick: true,
             next_jump: 1,
             advanced: 0,
+            clock: 1,
+            last_sync: 0,
+            settled: vec![true; n],
+            ref_replaced_at: vec![None; slots],
         };
         if sim.cfg.start_tick != 0 && sim.cfg.policy == 0 {
             sim.server.world_mut().resource_mut::<ServerTick>().increment_by(sim.cfg.start_tick);
@@ -468,6 +481,29 @@ impl Sim {
         believed.iter().any(|s| self.slots[*s].is_some() && !dying.contains(s))
     }
 
+    /// F23 exclusion: a reference to `slot` was replaced by another value and the old value may still travel in (or wait
+    /// in a client's buffer as) a mutate message. Also covers entities that would be despawned recursively with `slot`.
+    fn old_reference_may_be_in_flight(&self, slot: usize) -> bool {
+        if self.cfg.no_exclusions || !self.cfg.refs {
+            return false;
+        }
+        let mut dying: BTreeSet<usize> = [slot].into();
+        loop {
+            let before = dying.len();
+            for s in 0..self.parents.len() {
+                if let Some(p) = self.parents[s] {
+                    if dying.contains(&p) {
+                        dying.insert(s);
+                    }
+                }
+            }
+            if dying.len() == before {
+                break;
+            }
+        }
+        dying.iter().any(|s| self.ref_replaced_at[*s].is_some_and(|t| t >= self.last_sync))
+    }
+
     fn entity_has_p(&self, slot: usize) -> bool {
         self.slots[slot].is_some_and(|e| self.server.world().get::<P>(e).is_some())
     }
@@ -592,7 +628,18 @@ impl Sim {
         }
     }
 
+    /// A moment at which every change has been replicated, every replication message was handed over or lost, and every
+    /// client has run a frame since: no older message can still arrive anywhere.
+    fn note_sync(&mut self) {
+        if self.ops_since_tick == 0
+            && (0..self.clients.len()).all(|c| !self.clients[c].connected || (self.settled[c] && self.clients[c].s2c[0].is_empty() && self.clients[c].s2c[1].is_empty()))
+        {
+            self.last_sync = self.clock;
+        }
+    }
+
     pub fn step(&mut self, st: &Step) {
+        self.clock += 1;
         let nslots = self.slots.len();
         let nclients = self.clients.len();
         match *st {
@@ -612,6 +659,7 @@ impl Sim {
                 }
                 self.slots[slot] = Some(e);
                 self.marked[slot] = marked;
+                self.ref_replaced_at[slot] = None;
                 self.op();
             }
             Step::Despawn { slot } => {
@@ -624,6 +672,9 @@ impl Sim {
                 }
                 if self.has_stale_child(slot) && !self.cfg.no_exclusions {
                     return self.exclude("F17_parent_despawn_with_stale_descendant");
+                }
+                if self.old_reference_may_be_in_flight(slot) {
+                    return self.exclude("F23_despawn_while_a_replaced_reference_to_it_may_still_be_in_flight");
                 }
                 self.unref(slot);
                 self.break_refs(e, None);
@@ -660,6 +711,9 @@ impl Sim {
                     }
                     if (self.has_stale_child(slot) || (0..nslots).any(|s| self.parents[s] == Some(slot))) && !self.cfg.no_exclusions {
                         return self.exclude("F17_parent_despawn_with_stale_descendant");
+                    }
+                    if self.old_reference_may_be_in_flight(slot) {
+                        return self.exclude("F23_despawn_while_a_replaced_reference_to_it_may_still_be_in_flight");
                     }
                     self.unref(slot);
                     for p in &mut self.prespawned {
@@ -751,6 +805,11 @@ impl Sim {
                 }
                 if self.cfg.periodic && self.entity_has_p(slot) && !self.cfg.no_exclusions {
                     return self.exclude("F4_other_change_on_entity_with_periodic_component");
+                }
+                if let Some(old) = self.refs[slot] {
+                    if old != target {
+                        self.ref_replaced_at[old] = Some(self.clock);
+                    }
                 }
                 self.server.world_mut().entity_mut(e).insert(R(t));
                 self.refs[slot] = Some(target);
@@ -880,6 +939,9 @@ impl Sim {
                     if hides_parent || believed_child || shows_child {
                         return self.exclude("child_visible_without_its_parent");
                     }
+                }
+                if !visible && self.old_reference_may_be_in_flight(slot) {
+                    return self.exclude("F23_despawn_while_a_replaced_reference_to_it_may_still_be_in_flight");
                 }
                 if self.cfg.refs {
                     // keep "target visible to whoever sees the referrer" true
@@ -1465,8 +1527,11 @@ impl Sim {
         }
         for (e, ch, msg) in sent {
             let sframes = self.sframes;
-            let Some(c) = self.clients.iter_mut().find(|c| c.connected && c.id == e) else { continue };
-            c.s2c[ch].push_back(Msg { stamp: sframes, tick: t, bytes: msg });
+            let Some(ci) = self.clients.iter().position(|c| c.connected && c.id == e) else { continue };
+            if ch <= 1 {
+                self.settled[ci] = false;
+            }
+            self.clients[ci].s2c[ch].push_back(Msg { stamp: sframes, tick: t, bytes: msg });
         }
         // bookkeeping for events that left the server in this frame
         let lus = self.last_update_sent.clone();
@@ -1500,6 +1565,7 @@ impl Sim {
             }
         }
         oracle::read_server_log(self);
+        self.note_sync();
     }
 
     pub fn client_frame(&mut self, i: usize) {
@@ -1526,6 +1592,10 @@ impl Sim {
                 em.emitted = true;
             }
         }
+        if self.clients[i].s2c[0].is_empty() && self.clients[i].s2c[1].is_empty() {
+            self.settled[i] = true;
+        }
+        self.note_sync();
         oracle::read_client_log(self, i);
         if self.or.mutate_ticks {
             oracle::read_tick_log(self, i);
